@@ -46,6 +46,12 @@ def scenarios(tier, seed=0):
         for iwc in (["WP", "FC", "Pct40", "Pct70"] if method == 1 else ["WP", "FC"]):
             c = A._b(crop=ck, iwc=iwc, word=word, win="w2", soil="SandyLoam")
             yield {"kind": "irr", "config": c, "irr": irr_spec(method, kw, sch, mi, ms, eff)}
+    # seasons ended by a user-given latest harvest date BEFORE maturity, off-season simulated, more than one season: the harvest-date
+    # day itself is a simulated off-season day
+    for (method, kw, sch) in [x for x in STRATS if (x[0], x[2]) in ((5, None), (3, "daily"), (2, None), (1, None)) and x[1] not in ({"depth": 0}, {"SMT": [0] * 4})]:
+        for win in ("w2", "w3"):
+            c = A._b(crop="maize.2", iwc="FC", word="dry", win=win, soil="SandyLoam", off=True, harvest=12)
+            yield {"kind": "irr", "config": c, "irr": irr_spec(method, kw, sch, 25, 10000, 100)}
     # schedule tables built other ways than a datetime64 column: the docstring's DataFrame([dates, depths]).T (object-dtype columns of
     # timestamps), the same from date strings, rows listed latest first
     for style, sch, mi in itertools.product(("object_ts", "object_str", "reversed"), ("inseason", "big", "outside", "beyond_window"), (25, 5)):
